@@ -31,7 +31,7 @@ REACH = ['same-key']
 SETORDER = 'C02-set-order'
 KWORDER = 'C02-kwargs-order'
 
-SCENARIOS = ['rename', 'namespace', 'decl-order', 'task-order', 'mapkey-order', 'kwargs-order', 'ignored',
+SCENARIOS = ['global-vars-str', 'rename', 'namespace', 'decl-order', 'task-order', 'mapkey-order', 'kwargs-order', 'ignored',
              'default-explicit', 'context-global', 'context-ns', 'context-list', 'global-vars', 'global-vars-path',
              'optional-absent', 'set-order', 'uses-order']
 
@@ -178,6 +178,9 @@ def make_harness(case, tier):
             spec2 = [dict(t) for t in BASE]
             spec2[2] = dict(spec2[2], params=spec2[2]['params'] + [par('seed', default=42, dpdv=True)])
             spec2[3] = dict(spec2[3], params=[par('seed', default=42, dpdv=True)])        # a task without any other parameter
+            # defaults that repr() and the persistence representation write differently
+            spec2[0] = dict(spec2[0], params=spec2[0]['params'] + [par('opt', default={'b': 1, 'a': [2, "it's"]}, dpdv=True),
+                                                                    par('label', default="it's", dpdv=True)])
             C_ = mk(spec2, dict(v), name='newparam')
             D_ = mk(spec2, dict(v, seed=42), name='newparam-explicit')
             for t in A.tasks:
@@ -214,6 +217,14 @@ def make_harness(case, tier):
         elif sc == 'global-vars-path':
             import pathlib
             spec = [P('Reader', params=[par('src', dtype=pathlib.Path), par('n')]),
+                    P('After', inputs=[inp('Reader')])]
+            r1, r2 = S('root1', exclude='{}\n'), S('root2', exclude='{}\n')
+            n = I('n')
+            A = mk(spec, {'src': '{ROOT}/in', 'n': n}, gv={'ROOT': r1})
+            B_ = mk(spec, {'src': '{ROOT}/in', 'n': n}, gv={'ROOT': r2})
+            info['roots'] = [r1, r2]
+        elif sc == 'global-vars-str':
+            spec = [P('Reader', params=[par('src', dtype=str), par('n', dtype=int), par('lbl', dtype=str, default='{ROOT}/d')]),
                     P('After', inputs=[inp('Reader')])]
             r1, r2 = S('root1', exclude='{}\n'), S('root2', exclude='{}\n')
             n = I('n')
